@@ -240,6 +240,8 @@ struct CaseStats {
     values: u64,
     eof_errors: u64,
     reparsed: u64,
+    long_inputs: u64,
+    gave_up: u64,
 }
 
 struct Viol {
@@ -377,6 +379,9 @@ fn check_parse(
             }
         }
         let all_repaired = errs.iter().all(|e| !e.repairs.is_empty());
+        if !all_repaired {
+            st.gave_up += 1;
+        }
         if out.tree.is_some() != all_repaired {
             v("c07-value", format!("value returned = {} but every error has a repair = {} ({} errors)", out.tree.is_some(), all_repaired, errs.len()), json!(null));
         }
@@ -695,6 +700,87 @@ fn inputs_for(g: &RefGrammar, n: usize, repeat: bool) -> Vec<Vec<usize>> {
     v
 }
 
+/// Long inputs for the rank filter: sentences of `g` of about 270 lexemes (a short prefix followed
+/// by one token or a pair of tokens repeated; kept if the canonical LR(1) parser accepts them) with
+/// one deletion, insertion or substitution among the first three lexemes, so that more than
+/// TRY_PARSE_AT_MOST error-free lexemes follow the error and the ranking window binds.
+fn long_tail_inputs(g: &RefGrammar) -> Vec<Vec<usize>> {
+    let lr = vcore::refs::Lr1::build(g);
+    if lr.conflicts != 0 {
+        return vec![];
+    }
+    let total = PARSE_AT_MOST + 20;
+    let nt = g.ntoks;
+    let mut tails: Vec<Vec<usize>> = (0..nt).map(|t| vec![t]).collect();
+    for x in 0..nt {
+        for y in 0..nt {
+            if x != y {
+                tails.push(vec![x, y]);
+            }
+        }
+    }
+    let mut sents: Vec<Vec<usize>> = vec![];
+    'outer: for p in all_inputs(nt, 2) {
+        for t in &tails {
+            let mut w = p.clone();
+            w.extend(t.iter().cloned().cycle().take(total - total % t.len()));
+            // allow a closing token after the repetition
+            for close in std::iter::once(None).chain((0..nt).map(Some)) {
+                let mut w2 = w.clone();
+                if let Some(c) = close {
+                    w2.push(c);
+                }
+                if lr.parse(&w2).is_ok() {
+                    sents.push(w2);
+                    if sents.len() >= 4 {
+                        break 'outer;
+                    }
+                    break;
+                }
+            }
+        }
+    }
+    let mut out: BTreeSet<Vec<usize>> = BTreeSet::new();
+    for s in &sents {
+        for i in 0..3.min(s.len()) {
+            let mut d = s.clone();
+            d.remove(i);
+            out.insert(d);
+            for t in 0..nt {
+                let mut x = s.clone();
+                x[i] = t;
+                out.insert(x);
+                let mut y = s.clone();
+                y.insert(i, t);
+                out.insert(y);
+            }
+        }
+    }
+    // keep the inputs that are erroneous and have a cheap repair *at the position where the error
+    // is detected* (one deletion or one insertion there makes the whole input a sentence): the
+    // others (the edit is only detected further on, where undoing it is no longer possible) would
+    // need hundreds of deletions, which the search cannot reach within its budget
+    out.into_iter()
+        .filter(|w| match lr.parse(w) {
+            Ok(_) => false,
+            Err(e) => {
+                let mut cheap = false;
+                if e < w.len() {
+                    let mut d = w.clone();
+                    d.remove(e);
+                    cheap |= lr.parse(&d).is_ok();
+                }
+                for t in 0..nt {
+                    let mut x = w.clone();
+                    x.insert(e, t);
+                    cheap |= lr.parse(&x).is_ok();
+                }
+                cheap
+            }
+        })
+        .collect()
+}
+
 /// The flattened list of (avoid set, cost vector, input) of one case, in a fixed order shared by
 /// the worker and the parent (so that a progress mark identifies the parse that was running).
 fn flat_cases(v: &Value, g0: &RefGrammar) -> Vec<(Vec<usize>, Vec<u8>, Vec<usize>)> {
@@ -710,9 +796,17 @@ fn flat_cases(v: &Value, g0: &RefGrammar) -> Vec<(Vec<usize>, Vec<u8>, Vec<usize
     } else {
         vec![g0.avoid_insert.clone()]
     };
+    let explicit: Option<Vec<Vec<usize>>> = v["inputs"].as_array().map(|a| a.iter().map(|w| w.as_array().unwrap().iter().map(|x| x.as_u64().unwrap() as usize).collect()).collect());
     let inputs = match &only_input {
         Some(w) => vec![w.clone()],
-        None => inputs_for(g0, n, repeat),
+        None if explicit.is_some() => explicit.unwrap(),
+        None => {
+            let mut i = inputs_for(g0, n, repeat);
+            if v["long_tail"].as_bool().unwrap_or(false) {
+                i.extend(long_tail_inputs(g0));
+            }
+            i
+        }
     };
     let cost_vecs = match &only_costs {
         Some(c) => vec![c.clone()],
@@ -736,6 +830,10 @@ fn run_case(v: &Value) -> Value {
         None => return json!({"err": "bad grammar"}),
     };
     let step_budget = v["step_budget"].as_u64().unwrap_or(20_000);
+    // wall-clock budget of the driver for this case (default: never binds, the deterministic step
+    // budget does); the deadline pass of C07 sets 1 ms so that the deadline passes during the search
+    let budget_ms = v["budget_ms"].as_u64().unwrap_or(3_600_000);
+    lrpar::verif_hooks::set_recovery_budget_ms(budget_ms);
     let force = v["force"].as_bool().unwrap_or(false);
     let prescreen_only = v["prescreen_only"].as_bool().unwrap_or(false);
     let from = v["from"].as_u64().unwrap_or(0) as usize;
@@ -779,6 +877,9 @@ fn run_case(v: &Value) -> Value {
         }
         let inp = HInput::new(w);
         st.parses += 1;
+        if w.len() > PARSE_AT_MOST {
+            st.long_inputs += 1;
+        }
         vcore::pool::progress(&idx.to_string());
         // fresh thread: std's per-thread hash keys (owned through the getrandom shim) make the
         // result a function of (seed, case) only
@@ -806,12 +907,16 @@ fn run_case(v: &Value) -> Value {
         .take(40)
         .map(|x| json!({"key": x.key, "summary": x.summary, "input": x.input, "costs": x.costs, "extra": x.extra}))
         .collect();
+    let deadline_pass = v["budget_ms"].as_u64().is_some();
     json!({
         "stats": {
+            "deadline_pass_parses": if deadline_pass { st.parses } else { 0 },
+            "deadline_pass_parses_that_gave_up": if deadline_pass { st.gave_up } else { 0 },
+            "parses_that_gave_up": st.gave_up,
             "parses": st.parses, "errors": st.errors, "multi_error_inputs": st.multi_error_inputs, "sequences": st.sequences,
             "multi_seq_errors": st.multi_seq_errors, "loops": st.loops, "budget_exhausted": st.budget_exhausted,
             "ref_nodes": st.ref_nodes, "ref_edges": st.ref_edges, "ref_beyond_bound": st.ref_beyond_bound, "c06_compared": st.c06_compared,
-            "driver_steps": st.driver_steps, "values": st.values, "eof_errors": st.eof_errors, "reparsed_from_scratch": st.reparsed,
+            "driver_steps": st.driver_steps, "values": st.values, "eof_errors": st.eof_errors, "reparsed_from_scratch": st.reparsed, "inputs_longer_than_the_ranking_window": st.long_inputs,
         },
         "viol": vs,
         "nviol": nviol,
@@ -916,6 +1021,9 @@ pub fn run(ctx: Ctx, mode: Mode) -> i32 {
             // implementation's bucket vector grows quadratically in the number of steps
             "step_budget": if analyse(g).all_productive() && build::<u32>(g).map(|b| b.st.conflicts().is_none()).unwrap_or(false) { step_budget } else { 400 },
             "repeat": mode == Mode::C07 && (fam || g.nsyms() >= 5),
+            // C06: long error-free tails behind an early error, so that the ranking window
+            // (TRY_PARSE_AT_MOST) binds; conflict-free productive grammars of <= 3 tokens
+            "long_tail": mode == Mode::C06 && g.ntoks <= 3 && analyse(g).all_productive() && build::<u32>(g).map(|b| b.st.conflicts().is_none()).unwrap_or(false),
             "avoid_all": mode == Mode::C06 && g.ntoks <= 2 && g.nsyms() <= 4,
             // quick tier: on a table with a reduction loop (known finding C07-a) any recovering
             // parse may run into the loop and has to be killed by the memory limit, which is slow;
@@ -924,7 +1032,47 @@ pub fn run(ctx: Ctx, mode: Mode) -> i32 {
         })
     };
     use rayon::prelude::*;
-    let base_cases: Vec<Value> = gs.par_iter().map(|g| mk_case(g)).collect();
+    let mut gs = gs;
+    let mut base_cases: Vec<Value> = gs.par_iter().map(|g| mk_case(g)).collect();
+    if mode == Mode::C07 {
+        // Deadline pass: the environment answer "the recovery deadline passes during the search".
+        // Each grammar of <= 2 tokens gets one more token that no production mentions; inputs are
+        // w1 u^k w2 (k = 40: every u has to be deleted, the search cannot finish) and the driver's
+        // wall-clock budget is 1 ms with no step limit. Whatever the clock does, the result must
+        // satisfy the same invariants; with the deadline passing, the parse has to end with an
+        // error without repairs and without a value.
+        let mut extra_g = vec![];
+        let mut extra_c = vec![];
+        for (gi, g) in gs.iter().enumerate() {
+            if g.ntoks > 2 || base_cases[gi]["prescreen_only"] == json!(true) || (ctx.quick() && g.nsyms() > 4) {
+                continue;
+            }
+            let mut g2 = g.clone();
+            g2.ntoks += 1;
+            let u = g.ntoks;
+            let mut inputs: Vec<Vec<usize>> = vec![];
+            for w1 in all_inputs(g.ntoks, 1) {
+                for w2 in all_inputs(g.ntoks, 1) {
+                    let mut w = w1.clone();
+                    w.extend(std::iter::repeat(u).take(40));
+                    w.extend(w2);
+                    inputs.push(w);
+                }
+            }
+            extra_c.push(json!({
+                "mode": mode.name(),
+                "grammar": g2.to_json(),
+                "inputs": inputs,
+                "cost_vals": [1],
+                "step_budget": u64::MAX,
+                "budget_ms": 1,
+            }));
+            extra_g.push(g2);
+        }
+        ctx.set("deadline_pass_grammars", extra_g.len() as u64);
+        gs.extend(extra_g);
+        base_cases.extend(extra_c);
+    }
     ctx.set("grammars_screened_only_because_table_has_reduction_loop", base_cases.iter().filter(|c| c["prescreen_only"] == json!(true)).count() as u64);
     let mem_mb = 384;
     let mut tot: std::collections::BTreeMap<String, u64> = Default::default();
@@ -977,7 +1125,16 @@ pub fn run(ctx: Ctx, mode: Mode) -> i32 {
                         ctx.violation(
                             &key,
                             &format!("{} [input {} costs {}] {}", x["summary"].as_str().unwrap_or("?"), x["input"], x["costs"], gs[gi].short()),
-                            json!({"grammar": gs[gi].to_json(), "input": x["input"], "costs": x["costs"], "avoid": gs[gi].avoid_insert, "extra": x["extra"]}),
+                            {
+                                let mut c = json!({"grammar": gs[gi].to_json(), "input": x["input"], "costs": x["costs"], "avoid": gs[gi].avoid_insert, "extra": x["extra"]});
+                                // the deadline pass is replayed under the same budgets
+                                for k in ["budget_ms", "step_budget"] {
+                                    if base_cases[gi].get("budget_ms").is_some() {
+                                        c[k] = base_cases[gi][k].clone();
+                                    }
+                                }
+                                c
+                            },
                         );
                     }
                     let nv = v["nviol"].as_u64().unwrap_or(0);
@@ -999,6 +1156,9 @@ pub fn run(ctx: Ctx, mode: Mode) -> i32 {
                     hangs += 1;
                     let flat = flat_cases(&base_cases[gi], &gs[gi]);
                     let (avoid, costs, w) = flat[mark].clone();
+                    if std::env::var("VERIF_DEBUG").is_ok() {
+                        eprintln!("[rec] no answer ({:?}) at parse {} input len {} {:?} costs {:?} for {}", other, mark, w.len(), &w[..w.len().min(6)], costs, gs[gi].short());
+                    }
                     if mode == Mode::C07 {
                         let summary = format!(
                             "the recovering parse of {:?} (costs {:?}) does not return ({}) for {}",
@@ -1058,8 +1218,14 @@ pub fn run(ctx: Ctx, mode: Mode) -> i32 {
     if get("errors") == 0 || get("multi_error_inputs") == 0 || get("eof_errors") == 0 {
         machinery("vacuous exploration: no errors / no multi-error inputs / no end-of-input errors");
     }
+    if mode == Mode::C07 && get("deadline_pass_parses_that_gave_up") == 0 {
+        machinery("vacuous exploration: the recovery deadline never passed in the deadline pass");
+    }
     if mode != Mode::C07 && get("multi_seq_errors") == 0 {
         machinery("vacuous exploration: no error with >= 2 repair sequences");
+    }
+    if mode == Mode::C06 && get("inputs_longer_than_the_ranking_window") == 0 {
+        machinery("vacuous exploration: no input on which the ranking window binds");
     }
     if mode == Mode::C06 && get("c06_compared") == 0 {
         machinery("vacuous exploration: reference search never ran");
